@@ -270,7 +270,8 @@ def run(prog, rep):
     shapes = {"__init__": {}, "new_id": {}}
     for cname in MODEL:
         cls = prog.cls(cname)
-        for fname in ("__init__", "new_id"):
+        delegate = None       # (parameters of new_id, [(shape, atoms)]) for a constructor that calls self.new_id(...)
+        for fname in ("new_id", "__init__"):
             f = cls.methods.get(fname)
             if f is None:
                 raise AnalysisError("%s.%s vanished" % (cname, fname))
@@ -283,6 +284,20 @@ def run(prog, rep):
             for n in stores:
                 for shape, extra in _id_cases(x.expand(n.ast.value, n)):
                     cases.append((n, shape, extra))
+            if fname == "new_id":
+                delegate = (f.params[1:], [(shape, [(t0, p0) for t0, p0, _ in atoms_at(g, n)] + list(extra)) for n, shape, extra in cases])
+            elif delegate is not None:
+                # the constructor hands the id to self.new_id(<oid>): the stores of new_id with its parameter replaced by the argument
+                for n in g.nodes:
+                    c = n.ast.value if n.kind == "stmt" and isinstance(n.ast, ast.Expr) and isinstance(n.ast.value, ast.Call) else None
+                    if c is None or unparse(c.func) != "%s.new_id" % me:
+                        continue
+                    arg = unparse(c.args[0]) if c.args else (unparse(c.keywords[0].value) if c.keywords else "None")
+                    for shape, ats in delegate[1]:
+                        tr = [(re.sub(r"(?<![\w.])%s\b" % re.escape(delegate[0][0]), arg, t), pol) for t, pol in ats] if delegate[0] else list(ats)
+                        if any(_const_atom(t) is not None and _const_atom(t) != pol for t, pol in tr):
+                            continue          # new_id() without an id never parses
+                        cases.append((n, shape, tuple((t, pol) for t, pol in tr if _const_atom(t) is None)))
             skel = []
             for n, shape, extra in cases:
                 n_id += 1
@@ -313,6 +328,12 @@ def run(prog, rep):
                         for p in hit:
                             t = re.sub(r"(?<![\w.])%s\b" % re.escape(p), "ID", t)
                         facts.add("%s=%s" % (t, pol))
+                if shape and shape[0] == "parse":
+                    given = [fa for fa in facts if fa in ("ID is not None=True", "ID is None=False")]
+                    rep.check(bool(given) or not facts, "PROV-2", "%s: an id that was given is parsed" % f.short, "`is not None` decides",
+                              "%s parses the id only if {%s}: a given but falsy id ('') is treated as absent and silently replaced by a fresh "
+                              "one instead of being rejected" % (f.short, ", ".join(sorted(facts))), where(f, n.ast),
+                              witness="%s.new_id('') succeeds with a random id" % cname[4:])
                 around = sorted(set(c for h in hs for k, hn in h.succ if k == "except" for c in hn.info["classes"]))
                 inside = sorted(set(c for hn in g.nodes if hn.kind == "handler" and g.dominates(hn, n) for c in hn.info["classes"]))
                 skel.append("%s if {%s} try-except(%s) in-handler(%s)" % (shape and shape[0], ", ".join(sorted(facts)), ",".join(around), ",".join(inside)))
@@ -424,6 +445,12 @@ def _value_cases(value, atoms=()):
         return [(value.values[0], tuple(atoms) + tuple(atoms_of(value.values[0], True)))] + \
             _value_cases(value.values[1], tuple(atoms) + tuple(atoms_of(value.values[0], False)))
     return [(value, tuple(atoms))]
+
+
+def _const_atom(t):
+    """truth value of an atom over constants only (None is not None, None is None, None), else None"""
+    t = t.strip()
+    return {"None is not None": False, "None is None": True, "None": False, "not None": True}.get(t)
 
 
 def _id_cases(value, atoms=()):
